@@ -1,0 +1,12 @@
+//go:build verif
+
+// Export shims for the /verif C09 correspondence harness (add-only, build tag verif).
+package ca
+
+import "time"
+
+// VerifDefaultCertTTL returns the effective default workload TTL computed by NewIstioCA (minTTL).
+func (ca *IstioCA) VerifDefaultCertTTL() time.Duration { return ca.defaultCertTTL }
+
+// VerifMaxCertTTL returns the configured maximum workload TTL.
+func (ca *IstioCA) VerifMaxCertTTL() time.Duration { return ca.maxCertTTL }
